@@ -1,5 +1,5 @@
 #!/usr/bin/env python3
-"""usage: tools/mkseedprompt.py <property id> [suffix]  — create a scratch worktree /tmp/wt/<id><suffix> of /repo HEAD and
+"""usage: tools/mkseedprompt.py <property id> [suffix] [spots already used]  — create a scratch worktree /tmp/wt/<id><suffix> of /repo HEAD and
 write the prompt for a fresh sub-agent (text of the property only; nothing from /verif) to /tmp/wt/prompt_<id><suffix>.txt"""
 import json, subprocess, sys, os
 pid = sys.argv[1]; suf = sys.argv[2] if len(sys.argv) > 2 else ""
@@ -9,10 +9,13 @@ wt = f"/tmp/wt/{pid}{suf}"
 os.makedirs("/tmp/wt", exist_ok=True)
 if not os.path.exists(wt):
     subprocess.check_call(["git", "-C", "/repo", "worktree", "add", "--detach", wt, "HEAD"], stdout=subprocess.DEVNULL)
+avoid = sys.argv[3] if len(sys.argv) > 3 else ""
 extra = ""
 if suf:
     extra = ("\nAn earlier attempt already used the most obvious spot; look for a DIFFERENT mechanism or a different code location than the first thing that comes to mind "
              "(another function, another branch, another module among the anchored files, or an interaction of two pieces of state).\n")
+    if avoid:
+        extra += f"Earlier attempts already changed these spots, so do NOT use them again: {avoid}. Pick a different function or mechanism.\n"
 text = f"""You are working in a scratch git worktree of the Rust project ASU-cubesat/cfdp-rs (a CCSDS File Delivery Protocol implementation: crate cfdp-core = PDU codec + filestore, crate cfdp-daemon = tokio daemon with sender/receiver transaction state machines, segment bookkeeping, timers). The worktree is at {wt} — work ONLY inside that directory (never touch /repo or /verif, do not read anything under /verif). The sandbox has no network: always pass --offline to cargo (e.g. `cargo test --workspace --offline --no-fail-fast`, `cargo build --offline`). Use the worktree's own target directory (the default ./target inside it).
 
 Here is a semantic property the code base is supposed to satisfy:
